@@ -1994,7 +1994,21 @@ def m_coll_any_all(ex, st, fr, callee, args, argtys, dty):
     return z3.And(*[z3.Implies(p, r) for p, r in vals]) if vals else z3.BoolVal(True)
 
 
+def m_unwrap_or_default_bool(ex, st, fr, callee, args, argtys, dty):
+    if dty.strip() != "bool":
+        return NotImplemented
+    v = _deref_val(ex, st, args[0])
+    d = ex.discr(st, v, argtys[0])
+    head = ty_head(argtys[0])
+    var, good = ("Some", 1) if head == "Option" else ("Ok", 0)
+    payload = variant_payload(ex, st, v, var, "bool")
+    if payload is None:
+        return z3.BoolVal(False)
+    return z3.And(d == good, payload)
+
+
 STD_MODELS = [
+    (r"^(Option|Result)::<.*>::unwrap_or_default$", m_unwrap_or_default_bool),
     (r"^(HashSet|Vec|BTreeSet)::<.*>::iter$|^core::slice::<impl \[.*\]>::iter$", m_coll_iter),
     (r" as Iterator>::filter::<", m_coll_filter),
     (r" as Iterator>::map::<", m_coll_map),
